@@ -54,6 +54,8 @@ class Unit:
         self.std = {}
 
     def lower(self, workdir):
+        if getattr(self, '_lowered', None):      # a generator lowered this unit already (it needed the index to enumerate instances)
+            return self
         ensure_cxx2c()
         os.makedirs(workdir, exist_ok=True)
         tu = self.tu if os.path.isabs(self.tu) else os.path.join(VERIF, self.tu)
@@ -73,6 +75,7 @@ class Unit:
         self.json = json.load(open(j))
         self.by_name = {f['name']: f for f in self.json['functions']}
         self.mutable_statics = [g['qualified'] for g in self.json['globals'] if not g['const']]
+        self._lowered = True
         return self
 
     def resolve_name(self, short):
